@@ -1,7 +1,7 @@
 (* CodecWf.v — well-formedness of declarations and values, and the normal form of a value
    (transient fields reset to their declared defaults).  Definitions only. *)
 From Coq Require Import NArith ZArith List Bool.
-From Desert Require Import Outcome IO Types Codec.
+From Desert Require Import Outcome IO Types Calendar Codec.
 Import ListNotations.
 Open Scope N_scope.
 
@@ -10,7 +10,11 @@ Definition supported_prim (p : prim) : bool :=
   match p with
   | PU8 | PI8 | PU16 | PI16 | PU32 | PI32 | PU64 | PI64 | PU128 | PI128 | PF32 | PF64
   | PBool | PUnit | PChar | PString | PDedupString | PDuration | PBytes | PUuid | PBigInt => true
-  | _ => false
+  | PWeekday | PMonth | PFixedOffset | PTz | PDateTimeUtc | PNaiveDate | PNaiveTime | PNaiveDateTime
+  | PDateTimeLocal | PDateTimeFixed | PDateTimeTz => true
+  | PVarU32 | PVarI32 => true
+  (* BigDecimal is written as the decimal text the bigdecimal crate renders and parses: not modelled *)
+  | PBigDecimal => false
   end.
 
 Fixpoint wf_ty (E : env) (t : ty) : bool :=
@@ -68,6 +72,13 @@ Definition prim_bits (p : prim) : N :=
   | PU64 | PI64 | PF64 => 64 | PU128 | PI128 => 128 | _ => 0
   end.
 
+Definition wf_ndate (v : val) : bool :=
+  match v with VNode 0 [VZ y; VN m; VN d] => valid_ymd y m d | _ => false end.
+Definition wf_ntime (v : val) : bool :=
+  match v with VNode 0 [VN h; VN mi; VN sec; VN ns] => valid_hmsn h mi sec ns | _ => false end.
+Definition wf_ndt (v : val) : bool :=
+  match v with VNode 0 [d; t] => wf_ndate d && wf_ntime t | _ => false end.
+
 Definition wf_prim_val (p : prim) (v : val) : bool :=
   match p, v with
   | (PU8 | PU16 | PU32 | PU64 | PU128 | PF32 | PF64), VN n => n <? 2 ^ prim_bits p
@@ -81,6 +92,19 @@ Definition wf_prim_val (p : prim) (v : val) : bool :=
   | PBytes, VB _ => true
   | PUuid, VB bs => nlen bs =? 16
   | PBigInt, VZ _ => true
+  | PWeekday, VN n => (1 <=? n) && (n <=? 7)
+  | PMonth, VN n => (1 <=? n) && (n <=? 12)
+  | PFixedOffset, VZ z => valid_offset z
+  | PTz, VB nm => tz_known nm
+  | PDateTimeUtc, VNode 0 [VZ secs; VN nanos] => valid_ts secs nanos
+  | PNaiveDate, v => wf_ndate v
+  | PNaiveTime, v => wf_ntime v
+  | (PNaiveDateTime | PDateTimeLocal), v => wf_ndt v
+  | PDateTimeFixed, VNode 0 [dt; VZ off] =>
+      wf_ndt dt && valid_offset off && valid_local_with_offset (ndt_secs_of dt) off
+  | PDateTimeTz, VNode 0 [dt; VB nm] => wf_ndt dt && tz_known nm
+  | PVarU32, VN n => n <? 2 ^ 32
+  | PVarI32, VZ z => ((- 2 ^ 31 <=? z) && (z <? 2 ^ 31))%Z
   | _, _ => false
   end.
 
